@@ -1,4 +1,5 @@
 import ButlerModel.Model.Txn
+import ButlerModel.Model.TxnCache
 /-! # C07 — a failed transaction block leaves registry and datastore untouched -/
 namespace C07
 open Txn
@@ -166,3 +167,173 @@ theorem new_code_restores_witness : (run true 10 (.block witness) {}).1 = {} := 
 example : Fresh witness {} := by unfold Fresh witness; decide
 
 end C07
+
+/-! ## Registry rows behind read-through caches, and `pruneDatasets` inside a block
+(model `TxnCache`) -/
+namespace C07.Cache
+open TxnCache
+
+/-- The caches never disagree with the database: coherence is preserved by every program, at every
+depth, whether blocks fail, are caught, or commit. -/
+theorem coherent_all (fuel : Nat) :
+    (∀ (p : Prog) (s : S), Coherent s → Coherent (run true fuel p s).1) ∧
+    (∀ (ps : List Prog) (s : S), Coherent s → Coherent (runList true fuel ps s).1) := by
+  induction fuel with
+  | zero => exact ⟨fun p s h => by simpa [run] using h, fun ps s h => by simpa [runList] using h⟩
+  | succ n ih =>
+    have blockCase : ∀ (body : List Prog) (s : S), Coherent s → Coherent (run true (n + 1) (.block body) s).1 := by
+      intro body s h
+      have := ih.2 body s h
+      simp only [run]
+      generalize runList true n body s = res at this
+      obtain ⟨s2, failed⟩ := res
+      cases failed with
+      | true => simp [Coherent]
+      | false => simpa using this
+    constructor
+    · intro p s h
+      cases p with
+      | ins id => simp [run, doIns, Coherent]
+      | read =>
+        simp only [run, doRead]
+        rcases h with h | h
+        · simp [h, Coherent]
+        · simp only [h]; exact Or.inr h
+      | prune id =>
+        simp only [run, doPrune]
+        split
+        · exact h
+        · exact h
+      | fail => simpa [run] using h
+      | block body => exact blockCase body s h
+      | tryBlock body =>
+        simp only [run]
+        exact ih.1 (.block body) s h
+    · intro ps s h
+      cases ps with
+      | nil => simpa [runList] using h
+      | cons p ps =>
+        have h1 := ih.1 p s h
+        simp only [runList]
+        generalize run true n p s = res at h1
+        obtain ⟨s1, failed⟩ := res
+        cases failed with
+        | true => simpa using h1
+        | false => simpa using ih.2 ps s1 h1
+
+/-- Artifacts: a program only ever *removes* artifacts, and only those it prunes. -/
+theorem files_filter_all (b : Bool) (fuel : Nat) :
+    (∀ (p : Prog) (s : S), ∃ P : Nat → Bool, (run b fuel p s).1.files = s.files.filter P ∧
+        ∀ f, f ∉ prunes p → P f = true) ∧
+    (∀ (ps : List Prog) (s : S), ∃ P : Nat → Bool, (runList b fuel ps s).1.files = s.files.filter P ∧
+        ∀ f, f ∉ prunesL ps → P f = true) := by
+  have triv : ∀ (l : List Nat), l = l.filter (fun _ => true) :=
+    fun l => (List.filter_eq_self.mpr (fun _ _ => rfl)).symm
+  induction fuel with
+  | zero =>
+    exact ⟨fun p s => ⟨fun _ => true, by simp only [run]; exact triv _, fun _ _ => rfl⟩,
+           fun ps s => ⟨fun _ => true, by simp only [runList]; exact triv _, fun _ _ => rfl⟩⟩
+  | succ n ih =>
+    have blockCase : ∀ (body : List Prog) (s : S), ∃ P : Nat → Bool,
+        (run b (n + 1) (.block body) s).1.files = s.files.filter P ∧ ∀ f, f ∉ prunesL body → P f = true := by
+      intro body s
+      obtain ⟨P, h1, h2⟩ := ih.2 body s
+      refine ⟨P, ?_, h2⟩
+      simp only [run]
+      generalize runList b n body s = res at h1
+      obtain ⟨s2, failed⟩ := res
+      cases failed <;> simpa using h1
+    constructor
+    · intro p s
+      cases p with
+      | ins id => exact ⟨fun _ => true, by simp only [run, doIns]; exact triv _, fun _ _ => rfl⟩
+      | read =>
+        refine ⟨fun _ => true, ?_, fun _ _ => rfl⟩
+        simp only [run, doRead]
+        split <;> exact triv _
+      | prune id =>
+        simp only [run, doPrune]
+        split
+        · exact ⟨fun f => f != id, rfl, fun f hf => by simpa [prunes] using hf⟩
+        · exact ⟨fun _ => true, triv _, fun _ _ => rfl⟩
+      | fail => exact ⟨fun _ => true, by simp only [run]; exact triv _, fun _ _ => rfl⟩
+      | block body => simpa [prunes] using blockCase body s
+      | tryBlock body =>
+        obtain ⟨P, h1, h2⟩ := ih.1 (.block body) s
+        exact ⟨P, by simpa [run] using h1, by simpa [prunes] using h2⟩
+    · intro ps s
+      cases ps with
+      | nil => exact ⟨fun _ => true, by simp only [runList]; exact triv _, fun _ _ => rfl⟩
+      | cons p ps =>
+        obtain ⟨P1, h1, g1⟩ := ih.1 p s
+        simp only [runList]
+        generalize run b n p s = res at h1
+        obtain ⟨s1, failed⟩ := res
+        cases failed with
+        | true =>
+          exact ⟨P1, by simpa using h1, fun f hf => g1 f (fun hc => hf (by simp [prunesL, hc]))⟩
+        | false =>
+          obtain ⟨P2, h2, g2⟩ := ih.2 ps s1
+          refine ⟨fun f => P1 f && P2 f, ?_, ?_⟩
+          · simp only [Bool.false_eq_true, ↓reduceIte]
+            rw [h2]
+            simp only at h1
+            rw [h1, List.filter_filter]
+            congr 1
+            funext f
+            exact Bool.and_comm _ _
+          · intro f hf
+            have a1 := g1 f (fun hc => hf (by simp [prunesL, hc]))
+            have a2 := g2 f (fun hc => hf (by simp [prunesL, hc]))
+            simp [a1, a2]
+
+/-- **A failed block leaves the registry as it was**, as the database has it *and* as the cached
+interfaces show it — at every nesting depth. -/
+theorem failed_block_registry_restored (fuel : Nat) (body : List Prog) (s : S) (hc : Coherent s)
+    (h : (run true (fuel + 1) (.block body) s).2 = true) :
+    let s' := (run true (fuel + 1) (.block body) s).1
+    s'.rows = s.rows ∧ s'.ds = s.ds ∧ view s' = view s := by
+  simp only [run] at h ⊢
+  generalize runList true fuel body s = res at h
+  obtain ⟨s2, failed⟩ := res
+  cases failed with
+  | false => simp at h
+  | true =>
+    refine ⟨rfl, rfl, ?_⟩
+    simp only [view, ↓reduceIte]
+    rcases hc with hc | hc <;> simp [hc]
+
+/-- Artifacts after a failed block: nothing new, and everything that no `pruneDatasets` in the
+block named is still there. -/
+theorem failed_block_files (b : Bool) (fuel : Nat) (body : List Prog) (s : S) :
+    let s' := (run b (fuel + 1) (.block body) s).1
+    (∀ f ∈ s'.files, f ∈ s.files) ∧ (∀ f ∈ s.files, f ∉ prunesL body → f ∈ s'.files) := by
+  obtain ⟨P, h1, h2⟩ := (files_filter_all b (fuel + 1)).1 (.block body) s
+  simp only [h1]
+  refine ⟨fun f hf => (List.mem_filter.mp hf).1, fun f hf hn => List.mem_filter.mpr ⟨hf, h2 f (by simpa [prunes] using hn)⟩⟩
+
+/-- `_partial`: the artifacts are restored exactly by a failed block **that contains no
+pruneDatasets**.  The full statement (for every program) is false of the code — see
+`prune_in_failed_block_loses_artifact`. -/
+theorem failed_block_files_restored_partial (b : Bool) (fuel : Nat) (body : List Prog) (s : S)
+    (hnp : prunesL body = []) : (run b (fuel + 1) (.block body) s).1.files = s.files := by
+  obtain ⟨P, h1, h2⟩ := (files_filter_all b (fuel + 1)).1 (.block body) s
+  rw [h1]
+  apply List.filter_eq_self.mpr
+  intro f _
+  exact h2 f (by simp [prunes, hnp])
+
+/-- Known finding C07-c, as a theorem about the model: `with butler.transaction():
+pruneDatasets([1], purge, unstore); raise` keeps dataset 1 registered and loses its artifact. -/
+theorem prune_in_failed_block_loses_artifact :
+    (run true 5 (.block [.prune 1, .fail]) { ds := [1], files := [1] }).1 = { ds := [1], files := [] } := by decide
+
+/-- Regression witness of the earlier code (caches not dropped on rollback): insert a row, read it
+through the cache, fail — the cached interface keeps showing the rolled-back row. -/
+theorem old_code_stale_cache :
+    let s' := (run false 5 (.block [.ins 2, .read, .fail]) { rows := [1] }).1
+    s'.rows = [1] ∧ view s' = [2, 1] := by decide
+
+example : Coherent { rows := [1] } := Or.inl rfl
+
+end C07.Cache
